@@ -13,8 +13,21 @@ CORE_READER = [("BS.Props.C01", "BS.Props.C01.buffer_size_irrelevant"), ("BS.Pro
 
 THEOREMS = {
     "C01": (["BS.Props.C01"], [("BS.Props.C01", "BS.Props.C01.full_read_roundtrip"),
+                                ("BS.Props.C01", "BS.Props.C01.read_all_returns_history"),
                                 ("BS.Props.C01", "BS.Props.C01.buffer_size_irrelevant"),
                                 ("BS.Props.C01", "BS.Props.C01.carry_fits")]),
+    "C03": (["BS.Props.C03"], [("BS.Props.C03", "BS.Props.C03.accept_iff_strictly_newer"),
+                                ("BS.Props.C03", "BS.Props.C03.refused_step_is_noop")]),
+    "C06": (["BS.Props.C06"], [("BS.Props.C06", "BS.Props.C06.incremental_index_exact"),
+                                ("BS.Props.C06", "BS.Props.C06.rebuild_equals_incremental"),
+                                ("BS.Props.C06", "BS.Props.C06.chunk_size_irrelevant"),
+                                ("BS.Props.C06", "BS.Props.C06.rebuilt_file_bytes")]),
+    "C12": (["BS.Props.C12"], [("BS.Props.C12", "BS.Props.C12.len_is_count"),
+                                ("BS.Props.C12", "BS.Props.C12.range_is_first_last"),
+                                ("BS.Props.C12", "BS.Props.C12.size_formula")]),
+    "C15": (["BS.Props.C15"], [("BS.Props.C15", "BS.Props.C15.push_keeps_canonical"),
+                                ("BS.Props.C15", "BS.Props.C15.size_formula"),
+                                ("BS.Props.C15", "BS.Props.C15.section_rule")]),
     "C07": (["BS.Props.C07"], [("BS.Props.C07", "BS.Props.C07.reference_decoder_reads_canonical"),
                                 ("BS.Props.C07", "BS.Props.C07.section_layout_is_documented"),
                                 ("BS.Props.C07", "BS.Props.C07.section_roundtrip"),
